@@ -157,7 +157,9 @@ fn chunk_list(l: usize) -> Vec<usize> {
 
 fn schedules(tier: Tier, l: usize, max: usize) -> Vec<Schedule> {
     let cs: Vec<usize> = if tier == Tier::Quick { vec![1, l, max] } else { vec![1, 3, l, max / 2, max] };
-    let ks: Vec<usize> = if tier == Tier::Quick { vec![1, 2] } else { vec![1, 2, 5] };
+    // k = 0: set_chunk_size immediately followed by the next set_chunk_size (a size that is
+    // set and replaced before it is ever used)
+    let ks: Vec<usize> = if tier == Tier::Quick { vec![0, 1, 2] } else { vec![0, 1, 2, 5] };
     let mut slots = Vec::new();
     for &c in &cs {
         for &k in &ks {
@@ -168,6 +170,9 @@ fn schedules(tier: Tier, l: usize, max: usize) -> Vec<Schedule> {
     for a in &slots {
         for b in &slots {
             for c in &slots {
+                if a.1 + b.1 + c.1 == 0 {
+                    continue;
+                }
                 out.push(vec![*a, *b, *c]);
             }
         }
@@ -345,7 +350,7 @@ impl Check for C05 {
         crate::frame::replay_by_item(self, replay)
     }
     fn rule(&self, _tier: Tier) -> String {
-        "per algorithm family and ratio: one reference stream (fixed-input, chunk 257) and every run of {FixedIn, FixedOut} x every chunk size of {1,2,3,5,8,13,L-1,L,L+1,2L+1,64,100,257} x (sinc) every 3-slot set_chunk_size schedule over the (size, calls) menu, on a fixed pseudo-random signal; FFT: every (type, chunk<=256, sub_chunks<=4) grouped by resolved block size, bit-identical within a group. Non-trivial = compared prefix longer than 64 frames".into()
+        "per algorithm family and ratio: one reference stream (fixed-input, chunk 257) and every run of {FixedIn, FixedOut} x every chunk size of {1,2,3,5,8,13,L-1,L,L+1,2L+1,64,100,257} x (sinc) every 3-slot set_chunk_size schedule over the (size, calls) menu (calls = 0 included: a size set and replaced before use), on a fixed pseudo-random signal; FFT: every (type, chunk<=256, sub_chunks<=4) grouped by resolved block size, bit-identical within a group. Non-trivial = compared prefix longer than 64 frames".into()
     }
     fn assumptions(&self) -> Vec<String> {
         vec![
@@ -405,6 +410,7 @@ fn c07_items(tier: Tier) -> Vec<C07Item> {
                         // periodic chunk-size schedules
                         cfgs.push((c.clone(), vec![(1, 3), (chunk, 2)]));
                         cfgs.push((c.clone(), vec![(chunk / 2, 1), (chunk, 1), (1, 5)]));
+                        cfgs.push((c.clone(), vec![(1, 0), (chunk, 2), (chunk / 2, 0), (2, 1)]));
                     }
                 }
             }
@@ -423,7 +429,7 @@ fn c07_items(tier: Tier) -> Vec<C07Item> {
             Cfg::fast(Kind::FO, ratio, 1.0, 1, Degree::Linear),
             Cfg::fast(Kind::FI, ratio, 1.0, 1, Degree::Linear),
         ];
-        if !q {
+        {
             fine.push(Cfg::sinc(Kind::SO, ratio, 1.0, 1, 8, 2, Interp::Nearest, Kernel::Probe));
             fine.push(Cfg::sinc(Kind::SI, ratio, 1.0, 1, 8, 2, Interp::Nearest, Kernel::Probe));
             fine.push(Cfg::fast(Kind::FO, ratio, 1.0, 1, Degree::Septic));
@@ -675,7 +681,7 @@ impl Check for C07 {
         crate::frame::replay_by_item(self, replay)
     }
     fn rule(&self, _tier: Tier) -> String {
-        "per configuration (type x ratio x chunk x filter, sinc also with two periodic set_chunk_size schedules; FFT: every rate pair x chunk x sub_chunks): follow P (or the schedule) on the real object until (control fingerprint, schedule phase) repeats; check |out - r*in| <= r*(L+1/r+3)+3 at every step and exact out*den == in*num over the cycle; FFT: 0 <= in*b - out*a < one block at every step, == 0 for FftFixedInOut, block-size formula".into()
+        "per configuration (type x ratio x chunk x filter, sinc also with three periodic set_chunk_size schedules, one of them with sizes that are set and replaced before use; steps 1 -+ 2^-22 with 1-frame chunks, orbit of 2^22 calls; FFT: every rate pair x chunk x sub_chunks): follow P (or the schedule) on the real object until (control fingerprint, schedule phase) repeats; check |out - r*in| <= r*(L+1/r+3)+3 at every step and exact out*den == in*num over the cycle; FFT: 0 <= in*b - out*a < one block at every step, == 0 for FftFixedInOut, block-size formula".into()
     }
     fn assumptions(&self) -> Vec<String> {
         vec![
